@@ -26,7 +26,7 @@ RULE = (
     "Hypothesis draws bin edges (custom and method-generated), a closed side, 1-3 patches (patch-id column) and redshift arrays "
     "dominated by edge values (exact edges, nextafter of edges, below zmin, above zmax), weighted or not, with patches/bins left empty. "
     "Oracle: explicit interval membership per bin; compared with tree sizes and weight sums after build_trees, the weight sums of an "
-    "autocorrelation and HistData.from_catalog. Non-trivial: >=1 redshift exactly on an inner edge and >=1 on an outer edge; distinct = case digest."
+    "autocorrelation, the weight sums and trees of every binned role of a cross-correlation (reference and reference randoms, each with its own cache) and HistData.from_catalog. Non-trivial: >=1 redshift exactly on an inner edge and >=1 on an outer edge; distinct = case digest."
     ' Extensions: one case in eight has 127-300 redshift bins.'
 )
 ASSUMPTIONS = ["bin edges are taken from the library's configuration (C15 checks them)", "weighted sums compared to rtol 1e-12"]
@@ -161,6 +161,30 @@ def _run_one(case, flipped, after_first=False):
             ck.expect(sw2.shape == exp_w.shape and np.allclose(sw2, exp_w, rtol=1e-12, atol=0), f"measurement:sum_weights2:closed-{closed}")
         except Exception as e:  # noqa
             ck.fail(f"autocorrelate|{exc_sig(e)}", f"{type(e).__name__}: {e}")
+
+        # ---- 2b. every binned role of a cross-correlation (reference and reference randoms, each
+        # with its own cache directory, so that the trees are built by the measurement itself)
+        try:
+            ref_rand = pl.make_catalog(tmp / "r", cat, patch_ids=pid)
+            unknown = pl.make_catalog(tmp / "u", cat, patch_ids=pid)
+            unk_rand = pl.make_catalog(tmp / "v", cat, patch_ids=pid)
+            reference = pl.make_catalog(tmp / "d", cat, patch_ids=pid)
+            cc = yaw.crosscorrelate(cfg, reference, unknown, ref_rand=ref_rand, unk_rand=unk_rand, max_workers=mw)[0]
+            for member_name, role in (("dd", "reference"), ("dr", "reference"), ("rd", "ref_rand"), ("rr", "ref_rand")):
+                counts = getattr(cc, member_name)
+                if counts is None:
+                    ck.fail(f"crosscorrelate:missing-{member_name}", "requested pair counts absent")
+                    continue
+                swc = np.asarray(counts.sum_weights.sum_weights1, float)
+                ck.expect(swc.shape == exp_w.shape and np.allclose(swc, exp_w, rtol=1e-12, atol=0), f"crosscorrelate:sum_weights:{member_name}:{role}:closed-{closed}", lambda: f"{swc.tolist()} vs {exp_w.tolist()}")
+            for role, c in (("reference", reference), ("ref_rand", ref_rand)):
+                got = np.zeros((nb, K))
+                for p, patch in c.items():
+                    for bi, t in enumerate(list(BinnedTrees(patch).trees)[:nb]):
+                        got[bi, p] = t.num_records
+                ck.expect(np.array_equal(got, exp_n), f"crosscorrelate:trees:{role}:closed-{closed}", lambda: f"{got.tolist()} vs {exp_n.tolist()}")
+        except Exception as e:  # noqa
+            ck.fail(f"crosscorrelate|{exc_sig(e)}", f"{type(e).__name__}: {e}")
 
         # ---- 3. histogram
         try:
